@@ -1,6 +1,6 @@
 use isograph_schema::{
     MergedInlineFragmentSelection, MergedLinkedFieldSelection, MergedScalarFieldSelection,
-    MergedServerSelection,
+    MergedServerSelection, TYPENAME_FIELD_NAME,
 };
 use prelude::Postfix;
 
@@ -11,8 +11,21 @@ pub(crate) fn generate_normalization_ast_text<'schema, 'a>(
     indentation_level: u8,
 ) -> NormalizationAstText {
     let mut normalization_ast_text = "[\n".to_string();
+    let mut is_empty = true;
     for item in selection_map {
+        is_empty = false;
         let s = generate_normalization_ast_node(item, indentation_level + 1);
+        normalization_ast_text.push_str(&s);
+    }
+    if is_empty {
+        // The operation text selects `__typename` in an otherwise empty selection set
+        // (see write_selections_for_query_text), so the normalization AST must read it.
+        let typename_selection = MergedServerSelection::ScalarField(MergedScalarFieldSelection {
+            name: *TYPENAME_FIELD_NAME,
+            arguments: vec![],
+            is_fallible: false,
+        });
+        let s = generate_normalization_ast_node(&typename_selection, indentation_level + 1);
         normalization_ast_text.push_str(&s);
     }
     normalization_ast_text.push_str(&format!("{}]", "  ".repeat(indentation_level as usize)));
